@@ -63,6 +63,12 @@ def conditioning(f, t, y):
             ms = ps[2] / ps[0]
             if abs(ms - f.md) <= 1e-12 * f.md * worst:
                 near = True
+            if ms < f.md:
+                # the depletion weights 1 - md^(-1/2) P15/P1 and 1 - md^(-1/2) P25/P2 cancel when the bin's mean mass is close to md
+                for num, den in ((ps[1], ps[0]), (ps[3], ps[2])):
+                    w = abs(1.0 - f.md ** -0.5 * num / den)
+                    if w > 0:
+                        worst = max(worst, 10.0 / w)
         for c in range(3):
             for n, m in zip(Nr[c], Mr[c]):
                 if n > 0 and abs(m / n - f.md) <= 1e-13 * f.md:
